@@ -79,7 +79,9 @@ were rebased by hand onto it (noted in their `notes.md`) and confirmed again; on
 waiting for the reply), no longer breaks C04 on the repaired tree — its demonstration passes — and moved to `benign/F-b9`, and the
 clause that had caught it was removed as stronger than the property (§4 C04).  A last pair (round 7: C07-12, a hand-written component check that counts bytes instead of characters; C13-12, a "capped" flag that
 stops following the law once the maximum was reached, visible only for factor 0) was run blind after the allow-list change: both detected at first contact
-(the first as a failed postcondition of `is_valid`, the second through the bounded stand-in, the new `>=` on `Duration` being outside the prelude).  Final state (`seeded/RESULTS.md`, last run of
+(the first as a failed postcondition of `is_valid`, the second through the bounded stand-in, the new `>=` on `Duration` being outside the prelude;
+the comparison operators of `Duration` were then added to `prelude/duration.rs`, by value in nanoseconds, and C13-12 now fails the postcondition of
+`BackoffStrategyIter::next` deductively).  Final state (`seeded/RESULTS.md`, last run of
 `seedall.py`): **{len(det)} of {len(seeds)} detected, {len(und)} undecided (exit 2), {len(mis)} missed**.
 
 | seed | outcome | failed obligations (first three) or reason |
